@@ -773,3 +773,52 @@ func RaceCorpus(n int) *prog.Program {
 	}
 	return p
 }
+
+// FileBoundaries: in every package the file that comes first by name ENDS with a constructor and the
+// next files BEGIN with package-level code that would be legal only inside that constructor. Which
+// file holds the lower positions is an accident of the loader's parse order; nothing may leak from the
+// end of one file into the beginning of the next, in either order.
+func FileBoundaries() *prog.Program {
+	return &prog.Program{Pkgs: []prog.Pkg{
+		{Path: "ex.com/m/lib", Files: []prog.File{{Name: "a.go", Src: `package lib
+
+// T is immutable and constructor-restricted.
+// @immutable
+// @constructor NewT
+type T struct{ F int }
+
+var shared = NewT()
+
+func NewT() *T { t := &T{}; t.F = 1; return t }
+`}, {Name: "b.go", Src: `package lib
+
+var early = T{} // want CTOR01
+
+var early2 = func() int { shared.F = 2; return 0 }() // want IMM01
+
+func later() {}
+`}, {Name: "z.go", Src: `package lib
+
+var late T // want CTOR03
+
+var late2 = new(T) // want CTOR02
+`}}},
+		{Path: "ex.com/m/app", Files: []prog.File{{Name: "a.go", Src: `package app
+
+import "ex.com/m/lib"
+
+var held = lib.NewT()
+
+// NewT merely has the name of lib's constructor.
+func NewT() *lib.T { return lib.NewT() }
+`}, {Name: "b.go", Src: `package app
+
+import "ex.com/m/lib"
+
+var x = lib.T{} // want CTOR01
+
+var y = func() int { held.F++; return 0 }() // want IMM03
+`}}},
+		Unrelated(),
+	}}
+}
